@@ -362,7 +362,7 @@ func isNamedPtr(t types.Type, name string) bool {
 
 func init() {
 	register(&Def{ID: "C07", Run: c07,
-		Explain:     "Decides on SSA: (EXACTREAD) the header reader touches the stream only through its exact-read helper, each call requesting min==len(buf) of a freshly made buffer, and the helper reads only into buf[n:] until n>=min, propagating Read errors — so no byte after the header can be consumed; (BOUNDED) the body buffer is allocated only past varint n>0, length!=0 and length<=an init-only package limit; (R1) success only past both reads and UnmarshalVT of that buffer; leftover prefix bytes are carried over; (MIRROR) writer = varint(SizeVT)‖MarshalToVT of the same message; (R1/MUSTCALL/PROVENANCE) HandleIncomingStream issues HandleMountedStream only past header ok and protocol.ID.Validate ok, closes the stream on failing exits, and builds the directive from (decoded validated id, lnk.GetLocalPeer(), remote peer of lnk); protocol.ID.Validate succeeds only for non-empty valid UTF-8; (PANIC) reader totality. (EQUIV) the HandleMountedStream directive's IsEquivalent compares protocol id, local and remote peer like with like, so lookups for different peers are never merged.",
+		Explain:     "Decides on SSA: (EXACTREAD) the header reader touches the stream only through its exact-read helper, each call requesting min==len(buf) of a freshly made buffer, and the helper reads only into buf[n:] until n>=min, propagating Read errors — so no byte after the header can be consumed; (BOUNDED) the body buffer is allocated only past varint n>0, length!=0 and length<=an init-only package limit; (R1) success only past both reads and UnmarshalVT of that buffer; leftover prefix bytes are carried over; (MIRROR) writer = varint(SizeVT)‖MarshalToVT of the same message; (R1/MUSTCALL/PROVENANCE) HandleIncomingStream issues HandleMountedStream only past header ok and protocol.ID.Validate ok, closes the stream on failing exits, and builds the directive from (decoded validated id, lnk.GetLocalPeer(), remote peer of lnk); protocol.ID.Validate succeeds only for non-empty valid UTF-8; (PANIC) reader totality. (EQUIV) the HandleMountedStream directive's IsEquivalent compares protocol id, local and remote peer like with like, so lookups for different peers are never merged. Generated codec of transport/controller: SizeVT sizes fields from their own values, UnmarshalVT copies and guards its sub-slices, tags agree with the schema.",
 		NotCov:      "the value-level statement 'same ID for every chunking' (follows from exact reads under the io.Reader contract, which is trusted) and handler dispatch by the controller bus.",
 		Assumptions: commonAssumptions})
 }
